@@ -25,5 +25,10 @@ CONFIGS = {
     "skip1": {},
     "caseonly": {},
 }
+# one rule group switched off at a time (docs/rule_groups.rst): the rules that remain see input the switched-off group would
+# otherwise have normalised first (a consistency rule without the case rule in front of it, alignment without white space, ...)
+GROUPS = ["alignment", "blank_line", "case", "case::keyword", "case::label", "case::name", "indent", "length", "naming", "structure", "structure::optional", "whitespace"]
+for _g in GROUPS:
+    CONFIGS["nogrp:" + _g] = {"rule": {"group": {_g: {"disable": True}}}}
 SKIPS = {"skip1": [1], "caseonly": [1, 2, 3, 4, 5]}
 
